@@ -19,6 +19,7 @@ var Harnesses = map[string]func(){
 	"verifh/hparse.SchemaLimit":       hparse.SchemaLimit,
 	"verifh/hval.Smoke":               hval.Smoke,
 	"verifh/hval.ValidateRef":         hval.ValidateRef,
+	"verifh/hval.TypeCompat":          hval.TypeCompat,
 	"verifh/hval.Links":               hval.Links,
 	"verifh/hval.Compose":             hval.Compose,
 	"verifh/hval.Deterministic":       hval.Deterministic,
